@@ -163,6 +163,9 @@ type instr struct {
 	wasChanRange map[*ast.RangeStmt]bool
 	resetFuncs   []string
 	handledVars  map[string]bool
+	// local variables (and parameters) captured by the function literal of a
+	// go statement: shared between the spawning and the spawned goroutine
+	sharedLocals map[*types.Var]bool
 }
 
 func sel(name string) ast.Expr {
@@ -222,6 +225,9 @@ func (in *instr) isLoc(e ast.Expr) bool {
 		v, ok := in.info.Uses[x].(*types.Var)
 		if !ok || v.IsField() || v.Pkg() == nil {
 			return false
+		}
+		if in.sharedLocals[v] {
+			return !isSyncType(v.Type())
 		}
 		if v.Parent() != v.Pkg().Scope() || !in.ownPkg(v.Pkg()) {
 			return false
@@ -306,7 +312,37 @@ func (in *instr) markWrite(e ast.Expr) {
 
 var readOnlyMethods = map[string]bool{"String": true, "Len": true, "Cap": true}
 
+func (in *instr) findSharedLocals(f *ast.File) {
+	in.sharedLocals = map[*types.Var]bool{}
+	ast.Inspect(f, func(n ast.Node) bool {
+		g, ok := n.(*ast.GoStmt)
+		if !ok {
+			return true
+		}
+		lit, ok := stripValue(g.Call.Fun).(*ast.FuncLit)
+		if !ok {
+			return true
+		}
+		ast.Inspect(lit.Body, func(m ast.Node) bool {
+			id, ok := m.(*ast.Ident)
+			if !ok {
+				return true
+			}
+			v, ok := in.info.Uses[id].(*types.Var)
+			if !ok || v.IsField() || v.Pkg() == nil || v.Parent() == v.Pkg().Scope() {
+				return true
+			}
+			if v.Pos() < lit.Pos() || v.Pos() > lit.End() {
+				in.sharedLocals[v] = true
+			}
+			return true
+		})
+		return true
+	})
+}
+
 func (in *instr) computeModes(f *ast.File) {
+	in.findSharedLocals(f)
 	in.modes = map[ast.Expr]accessMode{}
 	ast.Inspect(f, func(n ast.Node) bool {
 		switch x := n.(type) {
@@ -372,6 +408,9 @@ func (in *instr) computeModes(f *ast.File) {
 func (in *instr) varName(e ast.Expr) string {
 	switch x := e.(type) {
 	case *ast.Ident:
+		if v, ok := in.info.Uses[x].(*types.Var); ok && in.sharedLocals[v] {
+			return "captured-local " + x.Name
+		}
 		return in.pkg.Name + "." + x.Name
 	case *ast.SelectorExpr:
 		if s, ok := in.info.Selections[x]; ok {
